@@ -67,6 +67,11 @@ def universe():
           (L('a'), W('x', 're', r'(?<=a)\d+')), (L('a/'), W('x', 're', r'(?<!/)\d+')),
           # a second continuation after a filtered wildcard that starts with another character than '/'
           (L('a/'), W('x', 'int'), L('-v'))]
+    # selector filters: one wildcard position shared by several rules, told apart by which group of the regex took part
+    rx3 = '(img)|(doc)|(raw)'
+    u += [(L('m/'), W('k', 'rex', (rx3, 1)), L('/'), W('n')), (L('m/'), W('k', 'rex', (rx3, 2)), L('/'), W('n')),
+          (L('m/'), W('k', 'rex', (rx3, 3))), (L('m/'), W(None, 'rex', (rx3, 2)), L('doc/x')),
+          (L('t/'), W('v', 'rex', ('[a-z]+-[0-9]+', None))), (L('m/'), W('k', 'rex', (rx3, 1)), L('-'), W('n', 'int'))]
     return u
 
 
@@ -74,12 +79,14 @@ CORE_IDX = None
 
 
 def core_rules(u):
-    """22-rule core: the rules most likely to share / split prefixes."""
+    """26-rule core: the rules most likely to share / split prefixes."""
     want = [(L('a'),), (L('ab'),), (L('a-'),), (W('x'),), (L('a/b'),), (L('a/ab'),), (L('a/'), W('x')), (L('a/'), W('x', 'int')),
             (L('a/'), W('x', 're', 'a+')), (L('a/'), W('p', 'path')), (W('x'), L('/a')), (L('a'), W('x')), (L('a'), W('x', 'int')),
             (W('x', 're', 'a+'), L('b')), (L('a/'), W('x'), L('/b')), (L('a/'), W('x', 'int'), L('/b')),
             (L('a/'), W('x'), L('/'), W('y')), (W('x'), L('/a/'), W('y')), (L('a/'), W('p', 'path'), L('end')), (),
-            (L('a/'), W('p', 'path'), L('/by/'), W('x')), (L('a'), W('x', 're', r'\b\d+')), (L('a/'), W('x', 'int'), L('-v'))]
+            (L('a/'), W('p', 'path'), L('/by/'), W('x')), (L('a'), W('x', 're', r'\b\d+')), (L('a/'), W('x', 'int'), L('-v')),
+            (L('m/'), W('k', 'rex', ('(img)|(doc)|(raw)', 1)), L('/'), W('n')), (L('m/'), W('k', 'rex', ('(img)|(doc)|(raw)', 2)), L('/'), W('n')),
+            (L('m/'), W(None, 'rex', ('(img)|(doc)|(raw)', 2)), L('doc/x'))]
     return [u.index(r) for r in want]
 
 
@@ -127,7 +134,7 @@ def shards(tier, seed):
 def bounds(tier, seed):
     u = universe()
     return {'universe': len(u), 'rules': [rr.default_text(r) for r in u], 'max_rules_per_router': 3,
-            'triples_over': '20-rule core' if tier == 'quick' else 'whole universe', 'insertion_orders': 'all',
+            'triples_over': '26-rule core' if tier == 'quick' else 'whole universe', 'insertion_orders': 'all',
             'path_generators': 'instantiation with ' + repr(rr.WILD_VALUES) + ', perturbations, all strings over {a,b,1,/,CR} <= 4 (3 for triples)'}
 
 
